@@ -30,8 +30,9 @@ type call struct {
 	gate  chan struct{} // closed by the client driver once the client script has finished
 	done  chan struct{} // closed when the handler returns
 
-	phase  atomic.Int32 // 0 running, 1 blocked in recv, 2 blocked in wait, 3 returned
-	nrecvd atomic.Int32 // messages the handler has received so far
+	phase   atomic.Int32 // 0 running, 1 blocked in recv, 2 blocked in wait, 3 returned
+	nrecvd  atomic.Int32 // messages the handler has received so far
+	entered atomic.Bool  // the handler has started (over gRPC a call cancelled at once may never reach it)
 
 	mu    sync.Mutex
 	log   []string
@@ -74,6 +75,7 @@ func (s *scripted) lookup(ctx context.Context) (*call, error) {
 		return nil, status.Error(codes.FailedPrecondition, "unknown script-id")
 	}
 	c := v.(*call)
+	c.entered.Store(true)
 	c.logf("in" + canonMD(md))
 	return c, nil
 }
@@ -98,19 +100,11 @@ func (f fin) err() error {
 	return nil
 }
 
-// abort: the call's context ended (client cancel / deadline). The scripted handler stops, waits
-// (bounded) for the client script to finish so that the client's view does not depend on how fast the
-// handler unwinds, and returns the context error.
-func (c *call) abort(ctx context.Context) error {
+// abort: one of the handler's blocking calls failed because the call's context ended (client cancel /
+// deadline). Like most real handlers the scripted one returns the error it was given.
+func (c *call) abort(err error) error {
 	c.logf("abort")
-	select {
-	case <-c.gate:
-	case <-time.After(5 * time.Second):
-	}
-	if err := ctx.Err(); err != nil {
-		return status.FromContextError(err).Err()
-	}
-	return status.Error(codes.Aborted, "aborted")
+	return err
 }
 
 func (c *call) run(io_ sio) error {
@@ -118,9 +112,6 @@ func (c *call) run(io_ sio) error {
 	defer c.phase.Store(3)
 	ctx := io_.ctx()
 	for _, op := range c.ops {
-		if ctx.Err() != nil {
-			return c.abort(ctx)
-		}
 		switch op.K {
 		case 'H':
 			if err := io_.setHeader(toMD(op.MD)); err != nil {
@@ -135,7 +126,7 @@ func (c *call) run(io_ sio) error {
 		case 'M':
 			m, err := io_.send(op.N)
 			if err != nil {
-				return c.abort(ctx)
+				return c.abort(err)
 			}
 			if m != nil {
 				c.mu.Lock()
@@ -149,7 +140,7 @@ func (c *call) run(io_ sio) error {
 			case <-time.After(5 * time.Second):
 				c.logf("wait-expired")
 			}
-			return c.abort(ctx)
+			return c.abort(status.FromContextError(ctx.Err()).Err())
 		case 'R':
 			c.phase.Store(1)
 			n, m, err := io_.recv()
@@ -157,13 +148,10 @@ func (c *call) run(io_ sio) error {
 			if err == nil {
 				c.nrecvd.Add(1)
 			}
-			if ctx.Err() != nil {
-				return c.abort(ctx)
-			}
 			if err == io.EOF {
 				c.logf("eof")
 			} else if err != nil {
-				return c.abort(ctx)
+				return c.abort(err)
 			} else {
 				c.logf("g" + strconv.Itoa(n))
 				c.mu.Lock()
@@ -171,9 +159,6 @@ func (c *call) run(io_ sio) error {
 				c.mu.Unlock()
 			}
 		}
-	}
-	if ctx.Err() != nil {
-		return c.abort(ctx)
 	}
 	if c.amp > 0 {
 		deriveChildren(ctx, c.amp*1000)
